@@ -316,14 +316,16 @@ pub proof fn lemma_reopen_other_key(t: Option<Seq<char>>, key: Seq<char>)
         parse_opt(t) is None ==> open_spec(t, key) == (IMap::<Seq<char>, EntryV>::empty(), false),
 {}
 
-/// FINDING F-C29-save-failed-write, as a proved statement: the state `save` leaves behind on its failure path (serializer or
-/// atomic_write returned Err: manifest.files already replaced, flag and disk untouched) violates the invariant whenever
-/// the flag was true before. `save`'s contract excludes exactly this class from `ensures wf(..)`.
-pub proof fn lemma_finding_save_failed_write(o: Store, n: Store, fs: VpFs)
+/// REGRESSION F-C29-save-failed-write (fixed in /repo by dc216b9). On its failure path (serializer or atomic_write returned Err)
+/// `save` has already replaced manifest.files and leaves the disk untouched. If the flag kept its old value `true` (the code before
+/// the fix) the invariant is broken; with the flag reset to false it holds. `save` now ensures wf on every exit.
+pub proof fn lemma_regression_save_failed_write(o: Store, n: Store, fs: VpFs)
     requires
         wf(o, fs), o.on_disk_current, !save_skips(sv(o)),
-        sv(n).saved.files == sv(o).next, sv(n).current == sv(o).current,
-    ensures !wf(n, fs),
+        sv(n).saved.files == sv(o).next, n.manifest.schema == o.manifest.schema,
+    ensures
+        n.on_disk_current ==> !wf(n, fs),
+        !n.on_disk_current ==> wf(n, fs),
 {}
 
 // ---- trusted stand-ins for derives ---------------------------------------------------------------------------
@@ -571,22 +573,19 @@ fn vp_scenario_roundtrip(root: &Path, key: &str, src: String, src2: &str, hash: 
     s.put(src, hash, Some(payload), Tracked(fs));
     let ghost e0 = sv(s).next[src2@];
     s.save(Tracked(fs));
-    if !s.on_disk_current { return; }           // the manifest write failed: nothing is promised
-    // F-C29-save-failed-write: the flag alone does not tell whether the write happened (it may have been true before and the
-    // write failed), so the rest is stated for the case that the invariant survived the save
-    let ghost ok = wf(s, *fs);
-    proof { if ok { lemma_reopen_same_key(s, *fs); } }
+    if !s.on_disk_current { return; }           // the manifest write failed (the flag tells, since the fix of F-C29-save-failed-write)
+    proof { lemma_reopen_same_key(s, *fs); }
     let Some(s2) = Store::open_with_lock(root, key, true, Tracked(fs)) else { return; };
     if !s2.on_disk_current { return; }          // the manifest could not be read back: everything is a miss
     let entry = s2.entry(src2);
-    assert(ok ==> entry is Some);
+    assert(entry is Some);
     if entry.is_none() { return; }
     let entry = entry.unwrap();
-    assert(ok ==> ev(*entry) == e0);
-    assert(ok ==> entry.hash@ == h);
+    assert(ev(*entry) == e0);
+    assert(entry.hash@ == h);
     if entry.fragment.is_some() {               // the blob write succeeded at put time
         let got = s2.load(entry, Tracked(fs));
         proof { lemma_blob_roundtrip(payload@); }
-        assert(ok && fs.last_blob_read is Some ==> got is Some && got.unwrap()@ == payload@);
+        assert(fs.last_blob_read is Some ==> got is Some && got.unwrap()@ == payload@);
     }
 }
